@@ -10,61 +10,31 @@ Reading of the statement:
   * atomicity  = a call answering an error leaves the state exactly as it was;
   * transparency = what an output port holds is held by everything registered upstream of it (complete) and the
                  holders of one subscription form one chain of registrations (sound);
-  * cycles     = a successfully auto-traced segment has no walk from the head that returns to a passed node;
-  * placeholders: a validated segment contains no placeholder (but a placeholder tail).
-`Wf` and atomicity hold for every call sequence, whatever the route (workers, placeholders, failed calls,
-retries).  (I1) is false of the code that exists when two publishers are registered on one placeholder port
-(finding C11-F1): `_full` + `_counterexample` + `_partial`.  The placeholder clause is false when the head
-placeholder compares equal to the tail worker, i.e. the tail is its registered publisher (finding C11-F2): `_full` + `_counterexample` + `_partial`.
+  * cycles     = a successfully auto-traced segment has no walk from the head that returns to a passed node; with an
+                 explicit tail: success = a repetition-free walk to the tail, `Cyclic` = a walk running into a passed
+                 node, `Disconnected` = no walk reaches the tail (the search stops at the first hit, by design);
+  * placeholders: a validated segment / an accepted composition reaches no placeholder (but a placeholder tail);
+  * copy       = an isomorphic region of fresh nodes, disjoint from the copied graph.
+`Wf` holds for every call sequence, whatever the route (workers, placeholders, failed calls, retries, segment /
+trunk / composition calls).  Atomicity holds for every single-step call; `Segment.extend`, `Trunk.extend` and
+`flow.Composition` keep their completed stages (finding C11-F3): `C11_atomic_full` + `_counterexample` + `_partial`
++ `C11_atomic_stages`.  (I1) is false of the code that exists when two publishers are registered on one placeholder
+port (finding C11-F1): `_full` + `_counterexample` + `_partial`.  The placeholder clause is false when the head
+placeholder compares equal to the tail worker, i.e. the tail is its registered publisher (finding C11-F2): `_full`
++ `_counterexample` + `_partial` (`C11_placeholder_*`, `C11_validator_*`).
 -/
-import ForML.Lemmas.C11Closure
+import ForML.Lemmas.C11Copy
 import ForML.Lemmas.C11Cycle
+import ForML.Lemmas.C11Visit
+import ForML.Lemmas.C11Exists
 
 namespace ForML.Graph
 
 /-! ### helper lemmas -/
 
-private theorem worker_or_future (g : G) (n : Nat) (h : n < g.nodes.length) :
-    isWorker g n = true ∨ isFuture g n = true := by
-  unfold isWorker isFuture
-  have : g.nodes[n]? = some g.nodes[n] := List.getElem?_eq_getElem h
-  rw [this]
-  rcases g.nodes[n] with ⟨k, a, b⟩
-  cases k <;> simp
-
 private theorem publish_future' (g : G) (p pi s k : Nat) (hf : isFuture g s = true) (hne : s ≠ p) :
     publish g p pi ⟨s, .apply k⟩ = register g s k p pi :=
   publish_future g p pi ⟨s, .apply k⟩ hf hne
-
-/-- creating a node keeps `Wf` -/
-private theorem wf_nodes (g : G) (nd : Node) (k : Nat) (hw : Wf g) :
-    Wf { g with nodes := g.nodes ++ [nd], ngroups := k } := by
-  obtain ⟨i2, i3, i4, i5, i6, i7, i8⟩ := hw
-  have hwk : ∀ n, n < g.nodes.length →
-      isWorker { g with nodes := g.nodes ++ [nd], ngroups := k } n = isWorker g n := by
-    intro n h; simp [isWorker, List.getElem?_append_left h]
-  have hfu : ∀ n, n < g.nodes.length →
-      isFuture { g with nodes := g.nodes ++ [nd], ngroups := k } n = isFuture g n := by
-    intro n h; simp [isFuture, List.getElem?_append_left h]
-  have hg : ∀ n, n < g.nodes.length →
-      gid? { g with nodes := g.nodes ++ [nd], ngroups := k } n = gid? g n := by
-    intro n h; simp [gid?, List.getElem?_append_left h]
-  refine ⟨i2, i3, ?_, i5, i6, ?_, ?_⟩
-  · intro e he e' he' ha ha' hgid
-    rw [hg _ (isWorker_lt _ _ (i7 e he).2), hg _ (isWorker_lt _ _ (i7 e' he').2)] at hgid
-    exact i4 e he e' he' ha ha' hgid
-  · intro e he
-    have h := i7 e he
-    refine ⟨?_, ?_⟩
-    · have := h.1
-      simp only [List.length_append, List.length_singleton]; omega
-    · rw [hwk _ (isWorker_lt _ _ h.2)]; exact h.2
-  · intro r hr
-    have h := i8 r hr
-    refine ⟨?_, ?_⟩
-    · rw [hfu _ (isFuture_lt _ _ h.1)]; exact h.1
-    · have := h.2
-      simp only [List.length_append, List.length_singleton]; omega
 
 /-! ### C11 — well-formedness after every call sequence -/
 
@@ -94,7 +64,7 @@ theorem C11_wf_step (g : G) (op : Op) (hw : Wf g) : Wf (step g op).1 := by
       · rename_i hf; exact register_wf g s j p pi hw hf hp
       · rename_i hf
         have hwk : isWorker g s = true := by
-          rcases worker_or_future g s hs with h | h
+          rcases node_kind g s hs with h | h
           · exact h
           · exact absurd h hf
         exact publish_wf g p pi ⟨s, .apply j⟩ hw hwk hp (fun h => by simp [Port.isApply] at h)
@@ -105,7 +75,7 @@ theorem C11_wf_step (g : G) (op : Op) (hw : Wf g) : Wf (step g op).1 := by
     · rename_i hlen
       have hs : s < g.nodes.length := by omega
       have hp : p < g.nodes.length := by omega
-      rcases worker_or_future g s hs with hwk | hf
+      rcases node_kind g s hs with hwk | hf
       · exact publish_wf g p pi ⟨s, .apply k⟩ hw hwk hp (fun h => by simp [Port.isApply] at h)
       · by_cases heq : s = p
         · obtain ⟨e, h⟩ := publish_self_future g p pi ⟨s, .apply k⟩ hf heq
@@ -119,6 +89,15 @@ theorem C11_wf_step (g : G) (op : Op) (hw : Wf g) : Wf (step g op).1 := by
     · rw [h]; exact hw2
   | segment h t => exact hw
   | validate h t => exact hw
+  | extend h t right xt => exact (extend_wire g h t right xt hw).wf hw
+  | copy h t =>
+    simp only [step]
+    rcases copy_cases g h t hw with ⟨e, he⟩ | ⟨tl, ps, _, hc, ok, _, _⟩
+    · rw [he]; exact hw
+    · rw [hc]; exact copied_wf g _ _ hw ok
+  | trunk a t l => exact trunk_keeps Wf (fun g hg => wf_nodes g _ _ hg) g a t l hw
+  | textend b a t l => exact (textend_wire g b a t l hw).wf hw
+  | compose ts => exact (compose_wire g ts hw).wf hw
 
 theorem C11_wf_init : Wf init := by decide
 
@@ -133,8 +112,17 @@ theorem C11_wf (ops : List Op) : Wf (run init ops) := by
 
 /-! ### C11 — atomicity -/
 
-/-- a call that raises leaves a well-formed state exactly as it was — every kind of call, every route -/
-theorem C11_atomic_step (g : G) (op : Op) (hw : Wf g) (he : (step g op).2.isErr = true) : (step g op).1 = g := by
+/-- the calls that are one step of wiring (or none); `Segment.extend`, `Trunk.extend` and `flow.Composition` are
+several (subscribe, then trace; three modes; several operators) -/
+def Op.atomic : Op → Bool
+  | .extend _ _ _ _ => false
+  | .textend _ _ _ _ => false
+  | .compose _ => false
+  | _ => true
+
+/-- a call that raises leaves a well-formed state exactly as it was — every kind of single-step call, every route -/
+theorem C11_atomic_step (g : G) (op : Op) (hw : Wf g) (ha : op.atomic = true) (he : (step g op).2.isErr = true) :
+    (step g op).1 = g := by
   cases op with
   | mkWorker st i o =>
     simp only [step, mkWorker] at he ⊢
@@ -160,7 +148,7 @@ theorem C11_atomic_step (g : G) (op : Op) (hw : Wf g) (he : (step g op).2.isErr 
       · rename_i hf
         simp only [hf] at he
         have hwk : isWorker g s = true := by
-          rcases worker_or_future g s hs with h | h
+          rcases node_kind g s hs with h | h
           · exact h
           · exact absurd h hf
         exact publish_atomic g p pi ⟨s, .apply j⟩ hw hwk hp he
@@ -172,7 +160,7 @@ theorem C11_atomic_step (g : G) (op : Op) (hw : Wf g) (he : (step g op).2.isErr 
       simp only [hlen, ↓reduceIte] at he
       have hs : s < g.nodes.length := by omega
       have hp : p < g.nodes.length := by omega
-      rcases worker_or_future g s hs with hwk | hf
+      rcases node_kind g s hs with hwk | hf
       · exact publish_atomic g p pi ⟨s, .apply k⟩ hw hwk hp he
       · by_cases heq : s = p
         · obtain ⟨e, h⟩ := publish_self_future g p pi ⟨s, .apply k⟩ hf heq
@@ -186,11 +174,57 @@ theorem C11_atomic_step (g : G) (op : Op) (hw : Wf g) (he : (step g op).2.isErr 
     · rw [h] at he; simp [Res.isErr] at he
   | segment h t => rfl
   | validate h t => rfl
+  | extend h t right xt => simp [Op.atomic] at ha
+  | textend b a t l => simp [Op.atomic] at ha
+  | compose ts => simp [Op.atomic] at ha
+  | copy h t =>
+    simp only [step] at he ⊢
+    rcases copy_cases g h t hw with ⟨e, h1⟩ | ⟨tl, ps, _, hc, _, _, _⟩
+    · rw [h1]
+    · rw [hc] at he; simp [Res.isErr] at he
+  | trunk a t l => exact trunk_atomic g a t l he
 
-/-- **C11_atomic**: after any sequence of construction calls, a call that raises leaves the graph exactly as it was -/
-theorem C11_atomic (ops : List Op) (op : Op) (he : (step (run init ops) op).2.isErr = true) :
-    (step (run init ops) op).1 = run init ops :=
-  C11_atomic_step _ op (C11_wf ops) he
+/-- full strength: after any sequence of construction calls, a call that raises leaves the graph exactly as it was -/
+def C11_atomic_full : Prop :=
+  ∀ (ops : List Op) (op : Op), (step (run init ops) op).2.isErr = true → (step (run init ops) op).1 = run init ops
+
+/-- C11-F3: `Trunk.extend` wires its modes one after the other; the train extension is refused (the input port is
+taken) after the apply extension went through, and stays -/
+theorem C11_atomic_counterexample : ¬ C11_atomic_full := by
+  intro h
+  have := h [.mkWorker false 1 1, .mkWorker true 1 1, .mkWorker true 1 1, .mkWorker true 1 1, .subscribe 3 0 1 0]
+    (.textend ⟨(0, none), (1, none), (2, none)⟩ (some (2, none)) (some (3, none)) none) (by decide)
+  revert this
+  decide
+
+/-- **C11_atomic_partial** (`C11_atomic`): after any sequence of construction calls, a single-step call (node
+creation, fork, subscribe / publish through any tree of placeholders, train, segment tracing, validation, copy,
+`Trunk(...)`) that raises leaves the graph exactly as it was -/
+theorem C11_atomic_partial (ops : List Op) (op : Op) (ha : op.atomic = true)
+    (he : (step (run init ops) op).2.isErr = true) : (step (run init ops) op).1 = run init ops :=
+  C11_atomic_step _ op (C11_wf ops) ha he
+
+theorem C11_atomic (ops : List Op) (op : Op) (ha : op.atomic = true)
+    (he : (step (run init ops) op).2.isErr = true) : (step (run init ops) op).1 = run init ops :=
+  C11_atomic_partial ops op ha he
+
+/-- **C11_atomic_stages**: the several-step calls (`Segment.extend`, `Trunk.extend`, `flow.Composition`), refused or
+not, change the graph by subscriptions that were each accepted and nothing else: every completed stage stays, a
+refused stage leaves no trace -/
+theorem C11_atomic_stages (ops : List Op) (op : Op) (ha : op.atomic = false) :
+    Wire (run init ops) (step (run init ops) op).1 := by
+  have hw := C11_wf ops
+  cases op with
+  | extend h t right xt => exact extend_wire _ h t right xt hw
+  | textend b a t l => exact textend_wire _ b a t l hw
+  | compose ts => exact compose_wire _ ts hw
+  | _ => simp [Op.atomic] at ha
+
+/-- a refused `Segment.copy` leaves the model state exactly as it was (the code leaves forks behind in the worker
+groups: finding C11-F4, outside the compared state) -/
+theorem C11_copy_atomic (ops : List Op) (h : Nat) (t : Option Nat)
+    (he : (step (run init ops) (.copy h t)).2.isErr = true) : (step (run init ops) (.copy h t)).1 = run init ops :=
+  C11_atomic_step _ _ (C11_wf ops) rfl he
 
 /-- non-vacuity: failing calls of every kind on a non-trivial graph (self subscription through a placeholder,
 trained publisher behind a placeholder, label stage of `train`, cycle of placeholders) -/
@@ -207,9 +241,13 @@ example :
 /-! ### C11 — one publisher per input port (worker and placeholder routes, any order of the calls) -/
 
 /-- the call does not give a placeholder input port a second publisher -/
-def SingleOp (g : G) : Op → Bool
+def SingleOp (g : G) (op : Op) : Bool :=
+  match op with
   | .subscribe s j _ _ => !(isFuture g s && g.regs.any (fun r => r.fut == s && r.idx == j))
   | .publish _ _ s k => !(isFuture g s && g.regs.any (fun r => r.fut == s && r.idx == k))
+  | .extend _ _ _ _ => decide (KeyNodup (step g op).1)
+  | .textend _ _ _ _ => decide (KeyNodup (step g op).1)
+  | .compose _ => decide (KeyNodup (step g op).1)
   | _ => true
 
 /-- one call (any kind, any route, failing or not) that registers no second publisher on a placeholder port keeps
@@ -248,7 +286,7 @@ theorem C11_chain_step (g : G) (op : Op) (hw : Wf g) (hs : SingleReg g) (hc : Ch
         · rw [h]; exact chain_register g s j p pi L hs hc hno facts
       · rename_i hf
         have hwk : isWorker g s = true := by
-          rcases worker_or_future g s hsl with h | h
+          rcases node_kind g s hsl with h | h
           · exact h
           · exact absurd h hf
         rcases publish_cases g p pi ⟨s, .apply j⟩ hw hwk hp with ⟨e, h⟩ | ⟨L, h, _, facts⟩
@@ -264,7 +302,7 @@ theorem C11_chain_step (g : G) (op : Op) (hw : Wf g) (hs : SingleReg g) (hc : Ch
     · rename_i hlen
       have hsl : s < g.nodes.length := by omega
       have hp : p < g.nodes.length := by omega
-      rcases worker_or_future g s hsl with hwk | hf
+      rcases node_kind g s hsl with hwk | hf
       · rcases publish_cases g p pi ⟨s, .apply k⟩ hw hwk hp with ⟨e, h⟩ | ⟨L, h, _, facts⟩
         · rw [h]; exact ⟨hs, hc⟩
         · rw [h]
@@ -296,6 +334,20 @@ theorem C11_chain_step (g : G) (op : Op) (hw : Wf g) (hs : SingleReg g) (hc : Ch
         lp li _ hs hc1 rfl rfl fresh2 (fun e he => ⟨(b5 e he).1, b6 e he⟩)⟩
   | segment h t => exact ⟨hs, hc⟩
   | validate h t => exact ⟨hs, hc⟩
+  | extend h t right xt =>
+    exact (extend_wire g h t right xt hw).chain hw hs hc (by have h1 := ho; simp only [SingleOp, decide_eq_true_eq] at h1; exact h1)
+  | textend b a t l =>
+    exact (textend_wire g b a t l hw).chain hw hs hc (by have h1 := ho; simp only [SingleOp, decide_eq_true_eq] at h1; exact h1)
+  | compose ts =>
+    exact (compose_wire g ts hw).chain hw hs hc (by have h1 := ho; simp only [SingleOp, decide_eq_true_eq] at h1; exact h1)
+  | copy h t =>
+    simp only [step]
+    rcases copy_cases g h t hw with ⟨e, he⟩ | ⟨tl, ps, _, hcp, ok, _, _⟩
+    · rw [he]; exact ⟨hs, hc⟩
+    · rw [hcp]; exact ⟨hs, copied_chain g _ _ hw ok hc⟩
+  | trunk a t l =>
+    exact trunk_keeps (fun g => SingleReg g ∧ Chain g)
+      (fun g hg => ⟨hg.1, chain_congr g _ rfl rfl hg.2⟩) g a t l ⟨hs, hc⟩
 
 /-- no call of the sequence registers a second publisher on a placeholder port (decidable along the run) -/
 def AllSingle : G → List Op → Prop
@@ -369,13 +421,6 @@ example :
 
 /-! ### C11 — completeness of the connections made through placeholders, any order of the calls -/
 
-private theorem closed_nodes (g : G) (nd : Node) (k : Nat) (hw : Wf g) (hc : Closed g) :
-    Closed { g with nodes := g.nodes ++ [nd], ngroups := k } := by
-  intro e he
-  refine holdsUp_lift g ({ g with nodes := g.nodes ++ [nd], ngroups := k } : G) rfl (fun _ h => h) ?_ (hc e he)
-  intro x hx
-  simp [isFuture, List.getElem?_append_left (hw.2.2.2.2.2.1 x hx).1]
-
 /-- one call keeps "whatever an output port holds is held by every publisher registered on it, all the way up" -/
 theorem C11_closed_step (g : G) (op : Op) (hw : Wf g) (hc : Closed g) : Closed (step g op).1 := by
   cases op with
@@ -405,7 +450,7 @@ theorem C11_closed_step (g : G) (op : Op) (hw : Wf g) (hc : Closed g) : Closed (
         · rw [h]; exact closed_register g s j p pi L hc h facts
       · rename_i hf
         have hwk : isWorker g s = true := by
-          rcases worker_or_future g s hsl with h | h
+          rcases node_kind g s hsl with h | h
           · exact h
           · exact absurd h hf
         rcases publish_cases g p pi ⟨s, .apply j⟩ hw hwk hp with ⟨e, h⟩ | ⟨L, h, hpt, facts⟩
@@ -420,7 +465,7 @@ theorem C11_closed_step (g : G) (op : Op) (hw : Wf g) (hc : Closed g) : Closed (
     · rename_i hlen
       have hsl : s < g.nodes.length := by omega
       have hp : p < g.nodes.length := by omega
-      rcases worker_or_future g s hsl with hwk | hf
+      rcases node_kind g s hsl with hwk | hf
       · rcases publish_cases g p pi ⟨s, .apply k⟩ hw hwk hp with ⟨e, h⟩ | ⟨L, h, hpt, facts⟩
         · rw [h]; exact hc
         · rw [h]
@@ -444,6 +489,17 @@ theorem C11_closed_step (g : G) (op : Op) (hw : Wf g) (hc : Closed g) : Closed (
       exact closed_publish _ lp li ⟨n, .label⟩ L2 hc1 hpt2 (fun e he => ⟨(b5 e he).1, b6 e he⟩)
   | segment h t => exact hc
   | validate h t => exact hc
+  | extend h t right xt => exact (extend_wire g h t right xt hw).closed hw hc
+  | textend b a t l => exact (textend_wire g b a t l hw).closed hw hc
+  | compose ts => exact (compose_wire g ts hw).closed hw hc
+  | copy h t =>
+    simp only [step]
+    rcases copy_cases g h t hw with ⟨e, he⟩ | ⟨tl, ps, _, hcp, _, _, _⟩
+    · rw [he]; exact hc
+    · rw [hcp]; exact copied_closed g _ _ hw hc
+  | trunk a t l =>
+    exact (trunk_keeps (fun g => Wf g ∧ Closed g)
+      (fun g hg => ⟨wf_nodes g _ _ hg.1, closed_nodes g _ _ hg.1 hg.2⟩) g a t l ⟨hw, hc⟩).2
 
 /-- **C11_future_complete**: after any sequence of construction calls — any number of placeholders, connected in
 any order, several publishers per placeholder port included — a subscription held by an output port is held by
@@ -590,6 +646,326 @@ theorem C11_placeholder_partial (g : G) (h : Nat) (t : Option Nat) (tl : Nat)
 example :
     validate (run init [.mkFuture 1 1, .mkWorker false 1 1, .subscribe 1 0 0 0]) 0 none = .err .futures ∧
     validate (run init [.mkWorker false 1 1, .mkWorker false 1 1, .subscribe 1 0 0 0]) 0 none = .node 1 := by
+  decide
+
+/-! ### C11 — `Segment.copy` yields an isomorphic, disjoint region -/
+
+/-- **C11_copy_iso**: a successful `Segment(h, t).copy()` forks exactly the nodes on the mapper paths from the head
+to the (unwrapped) tail - one fresh node per member, same kind, shape and worker group, the existing nodes
+untouched -, replays exactly the subscriptions between two members of one path (an `Apply` port of the same
+index), leaves the registrations as they were, and links no old node with a new one. -/
+theorem C11_copy_iso (g : G) (h : Nat) (t : Option Nat) (hw : Wf g) (hok : (copy g h t).2.isErr = false) :
+    ∃ (tl : Nat) (ps : List (List Nat)), paths (fuelOf g) g tl h [h] = .ok ps ∧
+      (copy g h t).2 = .segs [(copyIdx g (regionOf g h ps) h, copyIdx g (regionOf g h ps) tl)] ∧
+      h ∈ regionOf g h ps ∧ tl ∈ regionOf g h ps ∧ (regionOf g h ps).Nodup ∧
+      (∀ n, n ∈ regionOf g h ps ↔ n < g.nodes.length ∧ (n = h ∨ ∃ m ∈ ps, n ∈ m)) ∧
+      -- the forks: fresh, one per member, same kind / shape / group; the old nodes are untouched
+      (∀ n ∈ regionOf g h ps, g.nodes.length ≤ copyIdx g (regionOf g h ps) n ∧
+        (copy g h t).1.nodes[copyIdx g (regionOf g h ps) n]? = g.nodes[n]?) ∧
+      (∀ a ∈ regionOf g h ps, ∀ b ∈ regionOf g h ps,
+        copyIdx g (regionOf g h ps) a = copyIdx g (regionOf g h ps) b → a = b) ∧
+      (copy g h t).1.nodes.length = g.nodes.length + (regionOf g h ps).length ∧
+      (∀ n < g.nodes.length, (copy g h t).1.nodes[n]? = g.nodes[n]?) ∧
+      -- the subscriptions: the old ones as they were, the new ones the images of the edges inside one path
+      (copy g h t).1.regs = g.regs ∧
+      (copy g h t).1.edges = g.edges ++ (copyEdges g ps).map (copyEdge g (regionOf g h ps)) ∧
+      (∀ e, e ∈ copyEdges g ps ↔ e ∈ g.edges ∧ ∃ m ∈ ps, e.pub ∈ m ∧ e.sub.node ∈ m) ∧
+      -- disjoint: no subscription links an old node with a new one
+      (∀ e ∈ (copy g h t).1.edges, (e.pub < g.nodes.length ↔ e.sub.node < g.nodes.length)) := by
+  rcases copy_cases g h t hw with ⟨e, he⟩ | ⟨tl, ps, hps, hc, ok, htl, hh⟩
+  · rw [he] at hok; simp [Res.isErr] at hok
+  · rw [hc]
+    refine ⟨tl, ps, hps, rfl, hh, htl, ok.nodup, mem_regionOf g h ps, ?_, ?_, ?_, ?_, rfl, rfl, mem_copyEdges g ps, ?_⟩
+    · intro n hn
+      exact ⟨copyIdx_ge g _ n, copied_new_get g _ _ hn (ok.bound n hn)⟩
+    · intro a ha b hb hab
+      exact copyIdx_inj g ha hb hab
+    · simp [copied]
+    · intro n hn
+      exact copied_old_get g _ _ n hn
+    · intro e he
+      rcases mem_copied_edges g _ _ e he with h1 | ⟨a, _, rfl⟩
+      · have i7 := hw.2.2.2.2.2.1 e h1
+        exact ⟨fun _ => isWorker_lt _ _ i7.2, fun _ => i7.1⟩
+      · have h1 := copyIdx_ge g (regionOf g h ps) a.pub
+        have h2 := copyIdx_ge g (regionOf g h ps) a.sub.node
+        simp only [copyEdge]
+        constructor <;> (intro hlt; omega)
+
+/-- non-vacuity: a placeholder head feeding a chain with a trained side branch: the three mappers are copied, the
+trainer is not; a region in which two ports hold one subscription is refused and nothing is created -/
+example :
+    let g := run init [.mkFuture 1 1, .mkWorker false 1 1, .mkWorker false 1 1, .mkWorker true 1 1,
+      .subscribe 1 0 0 0, .subscribe 2 0 1 0, .train 3 1 0 0 0]
+    (copy g 0 none).2 = .segs [(4, 6)] ∧ (copy g 0 none).1.nodes.length = 7 ∧
+    (copy g 0 none).1.edges.length = g.edges.length + 2 ∧
+    (step (run init [.mkWorker false 1 2, .mkWorker false 1 1, .mkWorker false 1 1, .mkFuture 1 1,
+      .mkWorker false 1 1, .subscribe 1 0 0 0, .subscribe 2 0 0 1, .subscribe 3 0 1 0, .subscribe 3 0 2 0,
+      .subscribe 4 0 3 0]) (.copy 0 (some 4))).2 = .err .double := by
+  decide
+
+/-! ### C11 — a composition still containing placeholders is refused -/
+
+/-- full strength: the validator refuses a segment iff a placeholder other than its tail is reachable from the head -/
+def C11_validator_full : Prop :=
+  ∀ (g : G) (h tl : Nat), Wf g → h < g.nodes.length → tl < g.nodes.length →
+    (accept g h tl = some .futures ↔ ∃ n, Reach g tl h n ∧ isFuture g n = true ∧ n ≠ tl)
+
+/-- C11-F2 again: the placeholder head compares equal to the tail (its registered publisher) and is skipped -/
+theorem C11_validator_counterexample : ¬ C11_validator_full := by
+  intro h
+  have := (h (run init [.mkWorker false 1 1, .mkFuture 1 1, .mkWorker false 1 1, .subscribe 1 0 0 0, .subscribe 2 0 1 0])
+    1 0 (by decide) (by decide) (by decide)).mpr ⟨1, .head, by decide, by decide⟩
+  revert this
+  decide
+
+/-- **C11_validator_partial**: in every well-formed state in which no two different nodes compare equal
+(`Node.__eq__`), `Segment(h, tl).accept(Validator())` refuses **iff** a placeholder other than the tail is
+reachable from the head (over the subscribers of every output port, below the tail only through trained ones) -/
+theorem C11_validator_partial (g : G) (hw : Wf g) (na : noAlias g = true) (h tl : Nat) (hh : h < g.nodes.length)
+    (ht : tl < g.nodes.length) :
+    accept g h tl = some .futures ↔ ∃ n, Reach g tl h n ∧ isFuture g n = true ∧ n ≠ tl :=
+  accept_iff g hw na h tl hh ht
+
+/-- **C11_validator_sound**: in every state, a refusal names a reachable placeholder that does not compare equal to the tail -/
+theorem C11_validator_sound (g : G) (h tl : Nat) (hr : accept g h tl = some .futures) :
+    ∃ n, Reach g tl h n ∧ isFuture g n = true ∧ eqNode g n tl = false :=
+  accept_sound g h tl hr
+
+/-- non-vacuity: a state with a wired placeholder in which no two nodes compare equal; the placeholder head is
+refused, the worker-only remainder accepted -/
+example :
+    let g := run init [.mkFuture 1 1, .mkWorker false 1 1, .mkWorker false 1 1, .mkWorker true 1 1,
+      .subscribe 1 0 0 0, .subscribe 2 0 1 0, .train 3 2 0 1 0]
+    Wf g ∧ noAlias g = true ∧ accept g 0 2 = some .futures ∧ accept g 1 2 = none ∧
+    Reach g 2 0 1 ∧ isFuture g 0 = true := by
+  refine ⟨by decide, by decide, by decide, by decide, ?_, by decide⟩
+  exact .step .head (by decide) (by decide)
+
+private theorem autoTail_res (g : G) (p : Nat) : (∃ x, autoTail g p = .node x) ∨ ∃ e, autoTail g p = .err e := by
+  unfold autoTail
+  split
+  · exact .inl ⟨_, rfl⟩
+  · exact .inr ⟨_, rfl⟩
+  · exact .inr ⟨_, rfl⟩
+
+private theorem retrace_res (g : G) (s : Nat × Nat) : (∃ x, retrace g s = .node x) ∨ ∃ e, retrace g s = .err e := by
+  unfold retrace
+  rcases autoTail_res g s.2 with ⟨x, hx⟩ | ⟨e, hx⟩
+  · rw [hx]; exact segment_res g s.1 (some x)
+  · rw [hx]; exact .inr ⟨e, rfl⟩
+
+private theorem retrace_node (g : G) (s : Nat × Nat) (x : Nat) (hr : retrace g s = .node x) :
+    s.1 < g.nodes.length ∧ x < g.nodes.length := by
+  unfold retrace at hr
+  rcases autoTail_res g s.2 with ⟨y, hy⟩ | ⟨e, hy⟩
+  · rw [hy] at hr
+    obtain ⟨rfl, h1, h2⟩ := segment_some_node g s.1 y x hr
+    exact ⟨h1, h2⟩
+  · rw [hy] at hr; cases hr
+
+/-- **C11_composition_refused_iff**: the validation `Composition.__new__` makes (apply path retraced and validated,
+then the train path), in a well-formed alias-free state where both paths retrace: it refuses **iff** a placeholder
+other than the path's tail is reachable from the head of the apply path or of the train path - a placeholder on
+one path only is enough -/
+theorem C11_composition_refused_iff (g : G) (c : Trunk3) (hw : Wf g) (na : noAlias g = true) (at_ tt : Nat)
+    (ha : retrace g c.apply = .node at_) (ht : retrace g c.train = .node tt) :
+    (finalize g c).isErr = true ↔
+      (∃ n, Reach g at_ c.apply.1 n ∧ isFuture g n = true ∧ n ≠ at_) ∨
+      (∃ n, Reach g tt c.train.1 n ∧ isFuture g n = true ∧ n ≠ tt) := by
+  obtain ⟨a1, a2⟩ := retrace_node g c.apply at_ ha
+  obtain ⟨t1, t2⟩ := retrace_node g c.train tt ht
+  rw [← accept_iff g hw na c.apply.1 at_ a1 a2, ← accept_iff g hw na c.train.1 tt t1 t2]
+  unfold finalize
+  rw [ha]
+  simp only
+  rcases accept_none_or g c.apply.1 at_ with h1 | h1
+  · rw [h1, ht]
+    simp only
+    rcases accept_none_or g c.train.1 tt with h2 | h2
+    · rw [h2]; simp [Res.isErr]
+    · rw [h2]; simp [Res.isErr]
+  · rw [h1]; simp [Res.isErr]
+
+private theorem composeLoop_final : ∀ (ts : List TrunkSpec) (g : G) (c : Trunk3) (g' : G) (r : Res),
+    composeLoop g c ts = (g', r) → r.isErr = false → ∃ c', r = finalize g' c' := by
+  intro ts
+  induction ts with
+  | nil =>
+    intro g c g' r h _
+    simp only [composeLoop, Prod.mk.injEq] at h
+    exact ⟨c, by rw [← h.1, h.2]⟩
+  | cons s rest ih =>
+    intro g c g' r h hok
+    simp only [composeLoop] at h
+    split at h
+    · simp only [Prod.mk.injEq] at h; rw [← h.2] at hok; simp [Res.isErr] at hok
+    · split at h
+      · exact ih _ _ g' r h hok
+      · simp only [Prod.mk.injEq] at h; rw [← h.2] at hok; simp [Res.isErr] at hok
+
+private theorem finalize_segs (g : G) (c : Trunk3) (l : List (Nat × Nat)) (h : finalize g c = .segs l) :
+    ∃ at_ tt, l = [(c.apply.1, at_), (c.train.1, tt)] ∧ retrace g c.apply = .node at_ ∧
+      retrace g c.train = .node tt ∧ accept g c.apply.1 at_ = none ∧ accept g c.train.1 tt = none := by
+  unfold finalize at h
+  rcases retrace_res g c.apply with ⟨at_, ha⟩ | ⟨e, ha⟩
+  · rw [ha] at h
+    simp only at h
+    rcases accept_none_or g c.apply.1 at_ with hacc | hacc
+    · rw [hacc] at h
+      simp only at h
+      rcases retrace_res g c.train with ⟨tt, ht⟩ | ⟨e, ht⟩
+      · rw [ht] at h
+        simp only at h
+        rcases accept_none_or g c.train.1 tt with hacc2 | hacc2
+        · rw [hacc2] at h
+          simp only [Res.segs.injEq] at h
+          exact ⟨at_, tt, h.symm, ha, ht, hacc, hacc2⟩
+        · rw [hacc2] at h; cases h
+      · rw [ht] at h; cases h
+    · rw [hacc] at h; cases h
+  · rw [ha] at h; cases h
+
+/-- **C11_composition_accepted**: after any call sequence, a `flow.Composition` that is accepted - whatever the
+operators wired before the validation - contains no placeholder in its apply path nor in its train path (other than
+a lone placeholder tail), provided no two different nodes of the final graph compare equal -/
+theorem C11_composition_accepted (ops : List Op) (ts : List TrunkSpec) (l : List (Nat × Nat))
+    (hc : (step (run init ops) (.compose ts)).2 = .segs l)
+    (na : noAlias (step (run init ops) (.compose ts)).1 = true) :
+    ∃ ah at_ th tt, l = [(ah, at_), (th, tt)] ∧
+      (∀ n, Reach (step (run init ops) (.compose ts)).1 at_ ah n →
+        isFuture (step (run init ops) (.compose ts)).1 n = true → n = at_) ∧
+      (∀ n, Reach (step (run init ops) (.compose ts)).1 tt th n →
+        isFuture (step (run init ops) (.compose ts)).1 n = true → n = tt) := by
+  have hw := C11_wf (ops ++ [.compose ts])
+  have hrun : run init (ops ++ [.compose ts]) = (step (run init ops) (.compose ts)).1 := by
+    have : ∀ (xs : List Op) (g : G) (op : Op), run g (xs ++ [op]) = (step (run g xs) op).1 := by
+      intro xs
+      induction xs with
+      | nil => intro g op; rfl
+      | cons x xs ih => intro g op; simp only [List.cons_append, run]; exact ih _ op
+    exact this ops init _
+  rw [hrun] at hw
+  generalize hg' : (step (run init ops) (.compose ts)).1 = g' at hw na hc ⊢
+  have hfin : ∃ c', Res.segs l = finalize g' c' := by
+    cases ts with
+    | nil => simp [step, compose] at hc
+    | cons s rest =>
+      simp only [step, compose] at hc hg'
+      split at hc
+      · cases hc
+      · rename_i c hres
+        rw [hres] at hg'
+        simp only at hg'
+        have := composeLoop_final rest (run init ops) c g' (.segs l)
+          (by apply Prod.ext; exact hg'; exact hc) rfl
+        exact this
+  obtain ⟨c', hfin⟩ := hfin
+  obtain ⟨at_, tt, hl, ha, ht, acc1, acc2⟩ := finalize_segs g' c' l hfin.symm
+  obtain ⟨a1, a2⟩ := retrace_node g' c'.apply at_ ha
+  obtain ⟨t1, t2⟩ := retrace_node g' c'.train tt ht
+  refine ⟨c'.apply.1, at_, c'.train.1, tt, hl, ?_, ?_⟩
+  · intro n hr hf
+    by_cases hn : n = at_
+    · exact hn
+    · have := (accept_iff g' hw na c'.apply.1 at_ a1 a2).mpr ⟨n, hr, hf, hn⟩
+      rw [acc1] at this; cases this
+  · intro n hr hf
+    by_cases hn : n = tt
+    · exact hn
+    · have := (accept_iff g' hw na c'.train.1 tt t1 t2).mpr ⟨n, hr, hf, hn⟩
+      rw [acc2] at this; cases this
+
+/-- non-vacuity: a complete two-operator pipeline is accepted; with the train path of the source left to the
+default placeholder (the apply path fully wired) it is refused, and so it is with the placeholder on the apply path -/
+example :
+    let ops := [Op.mkWorker false 0 1, .fork 0, .fork 0, .trunk none none none, .mkWorker false 1 1, .fork 6,
+      .textend ⟨(3, none), (4, none), (5, none)⟩ (some (6, none)) (some (7, none)) none,
+      .trunk (some (0, none)) none none]
+    (step (run init ops) (.compose [⟨(0, none), (1, none), (2, none)⟩, ⟨(3, none), (4, none), (5, none)⟩])).2
+      = .segs [(0, 6), (1, 7)] ∧
+    (step (run init ops) (.compose [⟨(0, none), (8, none), (9, none)⟩, ⟨(3, none), (4, none), (5, none)⟩])).2
+      = .err .futures ∧
+    (step (run init ops) (.compose [⟨(8, none), (1, none), (9, none)⟩, ⟨(3, none), (4, none), (5, none)⟩])).2
+      = .err .futures := by
+  decide
+
+/-! ### C11 — tracing with an explicit tail -/
+
+/-- **C11_tail_connected**: `Segment(h, t)` succeeds only when a walk over mapper subscriptions that never passes a
+node twice leads from the head to (a node comparing equal to) the tail -/
+theorem C11_tail_connected (g : G) (h t tl : Nat) (hs : segment g h (some t) = .node tl) :
+    tl = t ∧ ∃ ys, TrailM g t [h] h ys ∧ eqNode g (ys.getLastD h) t = true := by
+  refine ⟨(segment_some_node g h t tl hs).1, ?_⟩
+  rcases segment_explicit g h t with h1 | h1 | ⟨hf, _⟩ | ⟨_, h1⟩ | ⟨_, h1⟩ | ⟨_, h1⟩
+  · rw [h1] at hs; cases hs
+  · rw [h1] at hs; cases hs
+  · exact existsT_found g t _ h [h] hf
+  · rw [h1] at hs; cases hs
+  · rw [h1] at hs; cases hs
+  · rw [h1] at hs; cases hs
+
+/-- **C11_cycle_explicit**: `Segment(h, t)` raises `Cyclic` only for a genuine cycle: a walk from the head whose
+next step runs into a node it has already passed -/
+theorem C11_cycle_explicit (g : G) (h t : Nat) (hs : segment g h (some t) = .err .cyclic) :
+    ∃ ys n, TrailM g t [h] h ys ∧ n ∈ mappers g (ys.getLastD h) (some t) ∧ memNode g n (ys.reverse ++ [h]) = true := by
+  rcases segment_explicit g h t with h1 | h1 | ⟨_, h1 | h1⟩ | ⟨hc, _⟩ | ⟨_, h1⟩ | ⟨_, h1⟩
+  · rw [h1] at hs; cases hs
+  · rw [h1] at hs; cases hs
+  · rw [h1] at hs; cases hs
+  · rw [h1] at hs; cases hs
+  · exact existsT_cyclic g t _ h [h] hc
+  · rw [h1] at hs; cases hs
+  · rw [h1] at hs; cases hs
+
+/-- **C11_disconnected_exact**: `Segment(h, t)` raises `Disconnected tail` only when no walk over mapper
+subscriptions leads from the head to the tail -/
+theorem C11_disconnected_exact (g : G) (h t : Nat) (hs : segment g h (some t) = .err .disconnected)
+    (ys : List Nat) (hy : TrailE g t h ys) : eqNode g (ys.getLastD h) t = false := by
+  rcases segment_explicit g h t with h1 | h1 | ⟨_, h1 | h1⟩ | ⟨_, h1⟩ | ⟨hn, _⟩ | ⟨_, h1⟩
+  · rw [h1] at hs; cases hs
+  · rw [h1] at hs; cases hs
+  · rw [h1] at hs; cases hs
+  · rw [h1] at hs; cases hs
+  · rw [h1] at hs; cases hs
+  · exact existsT_notFound g t _ h [h] hn ys hy
+  · rw [h1] at hs; cases hs
+
+/-- full strength for an explicit tail: a traced segment has no cycle reachable from its head -/
+def C11_cycle_explicit_full : Prop :=
+  ∀ (g : G) (h t tl : Nat), segment g h (some t) = .node tl → ∀ ys, Trail g h ys → h ∉ ys ∧ ys.Nodup
+
+/-- the search for an explicit tail stops at the first hit (`any`), a cycle beside the found path goes unnoticed -
+the auto-traced `Segment(h)` of the same graph raises `Cyclic` (`C11_cycle`) -/
+theorem C11_cycle_explicit_counterexample : ¬ C11_cycle_explicit_full := by
+  intro h
+  have := h (run init [.mkWorker false 1 2, .mkWorker false 1 1, .mkWorker false 2 1, .mkWorker false 1 1,
+      .subscribe 1 0 0 0, .subscribe 2 0 0 1, .subscribe 3 0 2 0, .subscribe 2 1 3 0]) 0 1 1 (by decide)
+    [2, 3, 2] (by decide)
+  revert this
+  decide
+
+/-- non-vacuity: the explicit tail is found although a cycle hangs beside it; auto-tracing the same head refuses -/
+example :
+    let g := run init [.mkWorker false 1 2, .mkWorker false 1 1, .mkWorker false 2 1, .mkWorker false 1 1,
+      .subscribe 1 0 0 0, .subscribe 2 0 0 1, .subscribe 3 0 2 0, .subscribe 2 1 3 0]
+    segment g 0 (some 1) = .node 1 ∧ segment g 0 none = .err .cyclic ∧ segment g 1 (some 3) = .err .disconnected ∧
+    segment g 3 (some 1) = .err .cyclic := by
+  decide
+
+/-! ### C11 — the several-step calls (non-vacuity) -/
+
+/-- `Segment.extend` with a node, a segment, an explicit tail, and retracing; a refused subscription leaves nothing,
+a refused later stage of `Trunk.extend` leaves the earlier one (C11-F3) -/
+example :
+    let ops := [Op.mkWorker false 1 1, .mkWorker false 1 1, .mkWorker false 1 1, .mkFuture 1 1,
+      .extend 0 none (some (1, none)) none, .extend 0 none (some (1, none)) none, .extend 0 (some 1) (some (3, none)) none,
+      .extend 0 none none none]
+    (step (run init (ops.take 4)) (ops.getD 4 (.fork 0))).2 = .node 1 ∧
+    (step (run init (ops.take 5)) (ops.getD 5 (.fork 0))).2 = .err .double ∧
+    (step (run init (ops.take 6)) (ops.getD 6 (.fork 0))).2 = .node 3 ∧
+    (step (run init (ops.take 7)) (ops.getD 7 (.fork 0))).2 = .node 1 ∧
+    AllSingle init ops ∧ (run init ops).edges.length = 1 ∧ (run init ops).regs.length = 1 := by
   decide
 
 end ForML.Graph
